@@ -323,4 +323,40 @@ class AbsList:
         return self is o
 
     def method(self, interp, name, args, kwargs):
+        if name == "append" and getattr(self, "on_append", None) is not None and isinstance(self.off, int) and self.off == 0:
+            # ghost fold: the lemma's hook checks that the appended object is the one the abstraction expects at index len
+            self.on_append(self, args[0])
+            self.len = self.len + 1
+            return None
         raise EngineError("AbsList.%s" % name)
+
+
+class GhostKey(str):
+    """an abstract dictionary key (a label of an abstract statement): a str for concatenation / printing, identified by the
+    symbolic id `gid`; id 0 is the empty string (falsy)"""
+
+    def __new__(cls, gid):
+        o = str.__new__(cls, "<label>")
+        o.gid = gid
+        return o
+
+
+class GhostDict:
+    """dict with abstract keys: the domain is a z3 array id -> Bool; stores go through `on_set(key, value)` (the lemma keeps
+    its own ghost of the stored values)"""
+
+    def __init__(self, dom, on_set=None):
+        self.dom = dom
+        self.on_set = on_set
+
+    def contains(self, interp, key):
+        if not isinstance(key, GhostKey):
+            raise EngineError("GhostDict membership of a concrete key")
+        return SymBool(z3.Select(self.dom, _z(key.gid)))
+
+    def setitem(self, interp, key, v):
+        if not isinstance(key, GhostKey):
+            raise EngineError("GhostDict store with a concrete key")
+        if self.on_set is not None:
+            self.on_set(self, key, v)
+        self.dom = z3.Store(self.dom, _z(key.gid), z3.BoolVal(True))
